@@ -86,28 +86,40 @@ class ModeSense10(SCSICommand):
         _bdl = scsi_ba_to_int(data[6:8])
         block_descriptor = data[8:_bdl]  # no one really use this variable in here ?
 
+        # all mode pages that begin inside the mode data length (which does not
+        # count itself)
+        _left = scsi_ba_to_int(data[0:2]) + 2 - (8 + _bdl)
         data = data[8 + _bdl :]
 
-        _r = {}
-        if not data[0] & 0x40:
-            decode_bits(data, cls.MODESENSE10.page_zero_bits, _r)
-            data = data[2:]
-        else:
-            decode_bits(data, cls.MODESENSE10.sub_page_bits, _r)
-            data = data[4:]
+        while _left >= 2 and len(data) >= 2:
+            if not data[0] and not data[1]:
+                # zero fill of a buffer the device did not fill, not a mode page
+                break
+            _r = {}
+            if not data[0] & 0x40:
+                decode_bits(data, cls.MODESENSE10.page_zero_bits, _r)
+                _pl = data[1]
+                data = data[2:]
+                _left -= 2 + _pl
+            else:
+                decode_bits(data, cls.MODESENSE10.sub_page_bits, _r)
+                _pl = scsi_ba_to_int(data[2:4])
+                data = data[4:]
+                _left -= 4 + _pl
 
-        if _r["page_code"] == cls.PAGE_CODE.ELEMENT_ADDRESS_ASSIGNMENT:
-            decode_bits(data, cls.MODESENSE10.element_address_bits, _r)
-        if _r["page_code"] == cls.PAGE_CODE.CONTROL:
-            if "sub_page_code" not in _r:
-                decode_bits(data, cls.MODESENSE10.control_bits, _r)
-            elif _r["sub_page_code"] == 1:
-                decode_bits(data, cls.MODESENSE10.control_extension_1_bits, _r)
-        if _r["page_code"] == cls.PAGE_CODE.DISCONNECT_RECONNECT:
-            if "sub_page_code" not in _r:
-                decode_bits(data, cls.MODESENSE10.disconnect_reconnect_bits, _r)
+            if _r["page_code"] == cls.PAGE_CODE.ELEMENT_ADDRESS_ASSIGNMENT:
+                decode_bits(data, cls.MODESENSE10.element_address_bits, _r)
+            if _r["page_code"] == cls.PAGE_CODE.CONTROL:
+                if "sub_page_code" not in _r:
+                    decode_bits(data, cls.MODESENSE10.control_bits, _r)
+                elif _r["sub_page_code"] == 1:
+                    decode_bits(data, cls.MODESENSE10.control_extension_1_bits, _r)
+            if _r["page_code"] == cls.PAGE_CODE.DISCONNECT_RECONNECT:
+                if "sub_page_code" not in _r:
+                    decode_bits(data, cls.MODESENSE10.disconnect_reconnect_bits, _r)
 
-        _mps.append(_r)
+            _mps.append(_r)
+            data = data[_pl:]
 
         result.update({"mode_pages": _mps})
         return result
